@@ -274,12 +274,12 @@ def _module_level_mutables(tree):
     return names
 
 
-def scheduling_set(media=True):
+def scheduling_set(media=True, extra_funcs=(), extra_attrs=()):
     """-> (lines: set[(filename, lineno)], files: set[filename], globals found)
     media=False leaves out the lazy media-resolution functions / attributes (they are executed on
     every attribute access of a component class and are only relevant to the media scenarios)."""
-    all_lines_funcs = ALL_LINES_FUNCS if media else ()
-    shared_attrs = SHARED_ATTRS if media else ()
+    all_lines_funcs = (ALL_LINES_FUNCS if media else ()) + tuple(extra_funcs)
+    shared_attrs = (SHARED_ATTRS if media else ()) + tuple(extra_attrs)
     pkg = package_dir()
     trees = {}
     for root, _dirs, fnames in os.walk(pkg):
